@@ -425,7 +425,32 @@ def check_mirror(ctx, rep, rule='M-mirror'):
         rep.ob(rule, 'delegate:%s' % short(name), callees == [target],
                '%s must delegate to %s, calls %s' % (short(name), short(target), [short(c) for c in callees]), loc=b.loc(b.j['line_lo']),
                reason='table-row')
-    rep.floor(rule, 'SplaySet delegations', n, 16)
+    # Extend: every item the iterator yields is inserted once (key and value in this order), nothing else is
+    for name, nargs in (('<splay::tree::SplayTree<K, V, C> as std::iter::Extend<(K, V)>>::extend', 3),
+                        ('<splay::set::SplaySet<T, C> as std::iter::Extend<T>>::extend', 2)):
+        be, pe = rep.explore(ctx, name, rule)
+        if be is None:
+            continue
+        ok = bool(pe)
+        for p in pe:
+            ins = [e for e in p.calls() if e['callee'].endswith('::insert') and e.get('depth', 0) == 0]
+            yielded = any(strip_upd(v)[0] == 'discr' and 'next(' in show(noepoch(v)) and c == ('eq', 1) for (v, c) in p.conds)
+            if p.end == 'backedge' and yielded:
+                good = len(ins) == 1 and len(ins[0]['args']) == nargs and show(noepoch(ins[0]['args'][0])) == 'self'
+                # the loop runs over the argument itself, not over an adaptor of it
+                its = [strip_upd(v) for e in p.events if e['k'] == 'loophead' for v in e.get('pre', {}).values()
+                       if strip_upd(v)[0] in ('call', 'pcall') and strip_upd(v)[1].endswith('into_iter')]
+                good = good and len(its) >= 1 and all(len(x[2]) == 1 and strip_upd(x[2][0])[0] == 'param' for x in its)
+                if good:
+                    pay = [show(noepoch(a)) for a in ins[0]['args'][1:]]
+                    good = all('next(' in s and 'as Some).0' in s for s in pay) and (nargs == 2 or (pay[0].endswith('.0') and pay[1].endswith('.1')))
+                ok = ok and good
+            elif p.end == 'return':
+                ok = ok and not ins
+        n += 1
+        rep.ob(rule, 'delegate:%s' % short(name), ok, '%s must insert every item the iterator yields exactly once' % short(name),
+               loc=be.loc(be.j['line_lo']), reason='table-row')
+    rep.floor(rule, 'SplaySet delegations', n, 18)
 
 
 def first_diff(a, b):
